@@ -246,7 +246,7 @@ class HttpBeaconClient:
         self.user = random_username_name() if user is None else user
         self.computer = random_computer_name(self.user) if computer is None else computer
         self.process = random_process_name() if process is None else process
-        info = f"{self.computer}\t{self.user}\t{self.process}"
+        info = f"{self.computer}\t{self.user}\t{self.process}".encode()
 
         # info cannot be larger than 51 bytes, truncate it to be sure.
         info = info[:51]
@@ -282,7 +282,7 @@ class HttpBeaconClient:
         self.metadata.ver_major = ver_major
         self.metadata.ver_minor = ver_minor
         self.metadata.ver_build = ver_build
-        self.metadata.info = info.encode()
+        self.metadata.info = info
 
         self.c2http = C2Http(bconfig, aes_key=self.aes_key, hmac_key=self.hmac_key)
 
